@@ -205,11 +205,28 @@ def rule_memoisation(ctx: Ctx, out: Collector) -> None:
                     count += 1
                     getter = dec.args[0]
                     ok = False
-                    if isinstance(getter, ast.Lambda) and isinstance(getter.body, ast.Attribute) \
-                            and isinstance(getter.body.value, ast.Name) and getter.body.attr in pif:
+                    field_name = None
+                    body_expr, first_param = None, None
+                    if isinstance(getter, ast.Lambda):
+                        body_expr, first_param = getter.body, (getter.args.args[0].arg if getter.args.args else None)
+                    elif isinstance(getter, (ast.Name, ast.Attribute)):
+                        # a named getter function: `def _store(manager): return manager._memo`
+                        gt = FuncEnv.of(p, m).type_of(getter) if not isinstance(m.node, ast.Lambda) else ('unknown',)
+                        if gt[0] != 'func':
+                            res = p.resolve_global(m.module, getter.id) if isinstance(getter, ast.Name) else ('unknown',)
+                            gt = ('func', res[1]) if res[0] == 'func' else gt
+                        if gt[0] == 'func' and not isinstance(gt[1].node, ast.Lambda):
+                            rets = [n for n in ast.walk(gt[1].node) if isinstance(n, ast.Return) and n.value is not None]
+                            if len(rets) == 1:
+                                body_expr = rets[0].value
+                                ps = gt[1].params()
+                                first_param = ps[0] if ps else None
+                    if isinstance(body_expr, ast.Attribute) and isinstance(body_expr.value, ast.Name) and body_expr.value.id == first_param \
+                            and body_expr.attr in pif:
                         ok = True
+                        field_name = body_expr.attr
                     if ok:
-                        out.ok('SH-5', cons, p.loc(m, dec), f'cache lives in the per-run field {getter.body.attr}')
+                        out.ok('SH-5', cons, p.loc(m, dec), f'cache lives in the per-run field {field_name}')
                     else:
                         out.bad('SH-5', cons, p.loc(m, dec), 'the cache of this method is not a per-run field of the manager: '
                                                              'memoised values leak from one run into the next',
